@@ -376,6 +376,15 @@ func (w *Writer) writeSwitch(switchStmt ir.StmtSwitch) error {
 		return err
 	}
 
+	// Inside a do-while (single-body) switch a `continue` is forwarded as
+	// `flag = true; break;`. That `break` only leaves the innermost switch, so a
+	// regular switch nested in the do-while has to take part in the forwarding
+	// and re-break after itself.
+	forwarding := w.continueCtx.inSwitch()
+	if forwarding {
+		w.continueCtx.enterSwitch(w.namer)
+	}
+
 	w.WriteLine("switch(%s) {", selector)
 	w.PushIndent()
 
@@ -419,6 +428,20 @@ func (w *Writer) writeSwitch(switchStmt ir.StmtSwitch) error {
 
 	w.PopIndent()
 	w.WriteLine("}")
+
+	if forwarding {
+		result, err := w.continueCtx.exitSwitch()
+		if err != nil {
+			return err
+		}
+		if result.kind == exitBreak {
+			w.WriteLine("if (%s) {", result.variable)
+			w.PushIndent()
+			w.WriteLine("break;")
+			w.PopIndent()
+			w.WriteLine("}")
+		}
+	}
 	return nil
 }
 
